@@ -12,6 +12,7 @@ import Ark.Model.Proto
     C09 funiq  FD <flagty> <bytes>             => <de>;<consumed>;<re-serialised | ->
     C09 frb    FD <flagty> <bytes>             => some <x> <flag> | none
     C09 prt    CD <aff|proj> <c|u> <y|n> <P>   => <bytes>;<size>;<de>;<consumed>
+    C09 toflags / signflag / flagu8 / flagconst / prb / prbrt : see the section "flags of a point …" below
     C10 mfde   FD <c|u> <y|n> <bytes>          => <de>;<consumed>
     C10 mfdefl FD <flagty> <bytes>             => <de>;<consumed>
     C10 mpde   CD <aff|proj> <c|u> <y|n> <bytes> => <de>;<consumed>
@@ -706,6 +707,245 @@ def runChkLine (args : List String) (impl : String) : Option (String × String) 
       | _ => none
   | _ => none
 
+/-! ## flags of a point / a coordinate, `Flags::from_u8`, `AffineRepr::from_random_bytes`
+
+    C09 toflags   CD <P>            => <mask>            `sw::Affine::to_flags().u8_bitmask()`
+    C09 signflag  FD <S|T> <x>      => <mask>            `SWFlags::from_y_coordinate` / `TEFlags::from_x_coordinate` (FD's tower: `_` | `2:<β>`)
+    C09 flagu8    S <byte>          => none <byte'> | <mask> <inf> <pos: 1|0|-> <byte'>     `from_u8`, accessors, `from_u8_remove_flags`
+    C09 flagu8    T <byte>          => <mask> <neg> <byte'>
+    C09 flagconst S                 => <default mask> <infinity() mask> <BIT_SIZE>
+    C09 flagconst T                 => <default mask> <BIT_SIZE>
+    C09 prb       CD <bytes>        => none | inf | <x>/<y>         `AffineRepr::from_random_bytes`
+    C09 prbrt     CD <P>            => none | inf | <x>/<y>         `from_random_bytes(serialize_compressed(P))`
+
+  Specs (independent of the model's functions): the documented flag layout (bit 7 = sign, bit 6 = infinity
+  (SW only), both = invalid; the remaining bits are ignored), the documented sign rule (`signPosF`),
+  the documented position of the flag bits in a `from_random_bytes` input (`specRbCoord`), the curve
+  equation, Euler's criterion. -/
+
+section frbops
+variable {F : Type} [Add F] [Sub F] [Mul F] [Neg F] [Zero F] [One F] [Inv F] [DecidableEq F]
+
+/-- spec: mask of the sign flag of a coordinate: `0` if `v ≤ −v`, else bit 7 -/
+def specSignMask (K : Kit F) (v : F) : Nat := if signPosF K v then 0 else 0x80
+
+def runToflags (K : Kit F) (C : Curve F) (ps impl : String) : Option (String × String) :=
+  if C.te then none else
+  match parseSwAff K ps with
+  | none => none
+  | some P =>
+    let m := flagStr (swToFlags K.codec P)
+    let want := hex (if P.infinity then 0x40 else specSignMask K P.y)
+    some (m, if impl == want then "ok" else "bad:want=" ++ want)
+
+def runSignflag (K : Kit F) (fl xs impl : String) : Option (String × String) :=
+  match parseF K xs with
+  | none => none
+  | some x =>
+    let m? := if fl == "S" then some (flagStr (swFlagsFromY K.codec x))
+      else if fl == "T" then some (flagStr (teFlagsFromX K.codec x)) else none
+    let want := hex (specSignMask K x)
+    m?.map (fun m => (m, if impl == want then "ok" else "bad:want=" ++ want))
+
+/-- spec: one prime-field coordinate of a `from_random_bytes` input carrying `f` flag bits.
+    The input is zero-padded to `8N + 1` bytes; the integer is the little-endian value of the first
+    `8N` bytes with the bits at positions `≥ bits` cleared; the flag bits are the top `f` bits of byte
+    `⌈(bits + f)/8⌉ − 1`.  Returns (integer, flag bits, flag bits read from the first byte of the last
+    8-byte chunk instead — only different for inputs longer than `8N + 8` bytes whose flag byte is the extra byte `8N`). -/
+def specRbCoord (c : FpCfg) (f : Nat) (bs : List Nat) : Nat × Nat × Nat :=
+  let n8 := 8 * c.N
+  let padded := bs ++ List.replicate (n8 + 1) 0
+  let int := leNat (padded.take n8) % 2 ^ c.bits
+  let s := ceil8 (c.bits + f)
+  let flagByte := padded.getD (s - 1) 0
+  let altByte := if s - 1 == n8 && bs.length > n8 + 8 then bs.getD (8 * ((bs.length - 1) / 8)) 0 else flagByte
+  (int, flagByte / 2 ^ (8 - f), altByte / 2 ^ (8 - f))
+
+/-- spec: the coordinate denoted by a `from_random_bytes` input (`none` inside: some integer `≥ p`), the flag
+    bits; a quadratic extension splits the input at `len / 2`: `c0` (no flags) then `c1` (flags) -/
+def specRbField (K : Kit F) (f : Nat) (bs : List Nat) : Option (Option F × Nat × Nat) :=
+  if K.k == 1 then
+    let (n, fb, fq) := specRbCoord K.c f bs
+    some ((if n < K.c.p then K.ofCoeffs [n] else none), fb, fq)
+  else if K.k == 2 then
+    let h := bs.length / 2
+    let (n0, _, _) := specRbCoord K.c 0 (bs.take h)
+    let (n1, fb, fq) := specRbCoord K.c f (bs.drop h)
+    some ((if n0 < K.c.p && n1 < K.c.p then K.ofCoeffs [n0, n1] else none), fb, fq)
+  else none
+
+/-- spec: Euler's criterion in the field with `p^k` elements -/
+def isSquareF (K : Kit F) (v : F) : Bool :=
+  isZeroF K v || gpow v ((K.c.p ^ K.k - 1) / 2) == 1
+
+def wantStr (impl want : String) : String := if impl == want then "ok" else "bad:want=" ++ want
+
+/-- verdict on `from_random_bytes` of an SW curve for flag bits `fb` (`0` positive, `1` infinity, `2` negative, `3` invalid) -/
+def judgePrbSW1 (K : Kit F) (C : Curve F) (x? : Option F) (fb : Nat) (impl : String) : String :=
+  match x? with
+  | none => wantStr impl "none"
+  | some x =>
+    if fb == 3 then wantStr impl "none"
+    else if fb == 1 then (if isZeroF K x then wantStr impl "inf" else wantStr impl "none")
+    else if !isSquareF K (x * x * x + C.a * x + C.b) then wantStr impl "none"
+    else match (if impl == "none" then none else parseSwAff K impl) with
+      | none => "bad:want-point"
+      | some P =>
+        if P.infinity then "bad:want-finite-point"
+        else if !(reducedF K P.x && reducedF K P.y) then "bad:range"
+        else if P.x != x then "bad:x"
+        else if !swOnCurve C (some (P.x, P.y)) then "bad:not-on-curve"
+        -- the returned point carries the flag that was in the bytes (`to_flags`, documented sign rule)
+        else if isZeroF K P.y || (fb == 0) == signPosF K P.y then "ok"
+        else "bad:sign-flag-inverted"
+
+def judgePrbTE1 (K : Kit F) (C : Curve F) (y? : Option F) (fb : Nat) (impl : String) : String :=
+  match y? with
+  | none => wantStr impl "none"
+  | some y =>
+    let den := C.a - C.b * (y * y)
+    if isZeroF K den then wantStr impl "none"
+    else if !isSquareF K ((1 - y * y) * den⁻¹) then wantStr impl "none"
+    else match (if impl == "none" then none else parseFs K impl) with
+      | some [px, py] =>
+        if !(reducedF K px && reducedF K py) then "bad:range"
+        else if py != y then "bad:y"
+        else if !teOnCurve C (px, py) then "bad:not-on-curve"
+        else if isZeroF K px || (fb == 0) == signPosF K px then "ok"
+        else "bad:sign-flag-inverted"
+      | _ => "bad:want-point"
+
+def judgePrb (K : Kit F) (C : Curve F) (bs : List Nat) (impl : String) : String :=
+  if impl == "panic" then "bad:panic" else
+  match specRbField K (if C.te then 1 else 2) bs with
+  | none => "bad:spec-field"
+  | some (v?, fb, fq) =>
+    let judge := fun fb => if C.te then judgePrbTE1 K C v? fb impl else judgePrbSW1 K C v? fb impl
+    let v := judge fb
+    if v == "ok" || fq == fb then v
+    else
+      let v2 := judge fq
+      if v2 == "ok" then "note:flag-byte-from-last-chunk"
+      else if v2 == "bad:sign-flag-inverted" then "bad:sign-flag-inverted+flag-byte-from-last-chunk"
+      else v
+
+abbrev Frb (F : Type) := (Fl : Type) → [Flags Fl] → List Nat → Outcome (Option (F × Fl))
+
+def prbModel (K : Kit F) (C : Curve F) (frb : Frb F) (bs : List Nat) : String :=
+  if C.te then
+    match teFromRandomBytes K.codec (teE C) frb bs with
+    | .panic => "panic"
+    | .ok none => "none"
+    | .ok (some P) => teAffStr K P
+  else
+    match swFromRandomBytes K.codec (swE K C) frb bs with
+    | .panic => "panic"
+    | .ok none => "none"
+    | .ok (some P) => swAffStr K P
+
+def runPrb (K : Kit F) (C : Curve F) (frb : Frb F) (bs : List Nat) (impl : String) : Option (String × String) :=
+  some (prbModel K C frb bs, judgePrb K C bs impl)
+
+/-- `from_random_bytes(serialize_compressed(P))`: the documentation of `AffineRepr::from_random_bytes`
+    ("returns a group element if the set of bytes forms a valid group element … primarily intended for
+    sampling random group elements") does not promise the round trip, so `−P` is a `note` -/
+def runPrbrt (K : Kit F) (C : Curve F) (frb : Frb F) (ps impl : String) : Option (String × String) :=
+  if C.te then
+    match parseFs K ps with
+    | some [x, y] =>
+      let m := match teSerialize K.codec (⟨x, y⟩ : TEAff F) .yes with
+        | .ok bytes => prbModel K C frb bytes
+        | .err e => errStr e
+        | .panic => "panic"
+      let want := fStr K x ++ "/" ++ fStr K y
+      let neg := fStr K (-x) ++ "/" ++ fStr K y
+      some (m, if impl == want then "ok" else if impl == neg then "note:negated-point" else "bad:want=" ++ want)
+    | _ => none
+  else
+    match parseSwAff K ps with
+    | none => none
+    | some P =>
+      let m := match swSerialize K.codec P .yes with
+        | .ok bytes => prbModel K C frb bytes
+        | .err e => errStr e
+        | .panic => "panic"
+      let want := if P.infinity then "inf" else fStr K P.x ++ "/" ++ fStr K P.y
+      let neg := if P.infinity then "inf" else fStr K P.x ++ "/" ++ fStr K (-P.y)
+      some (m, if impl == want then "ok" else if impl == neg then "note:negated-point" else "bad:want=" ++ want)
+
+def runCurveOp (K : Kit F) (frb : Frb F) (op kind a b r h1 payload impl : String) : Option (String × String) := do
+  let C ← parseCurve K kind a b r h1
+  match op with
+  | "toflags" => runToflags K C payload impl
+  | "prb" => runPrb K C frb (← parseList? payload) impl
+  | "prbrt" => runPrbrt K C frb payload impl
+  | _ => none
+
+end frbops
+
+def frbFp (c : FpCfg) : Frb (Fp c.p) := fun Fl _ bs => fpFromRandomBytesFlags c Fl bs
+def frbFp2 (c : FpCfg) (β : Nat) : Frb (Fp2 c.p β) := fun Fl _ bs => fp2FromRandomBytesFlags c β Fl bs
+
+def runCurveOpLine (op : String) (args : List String) (impl : String) : Option (String × String) :=
+  match args with
+  | [kind, p, n, t, a, b, r, h1, payload] => do
+    let p ← parseHex? p
+    let n ← parseHex? n
+    if t == "_" then runCurveOp (kitFp ⟨p, n⟩) (frbFp ⟨p, n⟩) op kind a b r h1 payload impl
+    else match t.splitOn ":" with
+      | ["2", beta] => do
+        let beta ← parseHex? beta
+        runCurveOp (kitFp2 ⟨p, n⟩ beta) (frbFp2 ⟨p, n⟩ beta) op kind a b r h1 payload impl
+      | _ => none
+  | _ => none
+
+def runSignflagLine (args : List String) (impl : String) : Option (String × String) :=
+  match args with
+  | [p, n, t, fl, x] => do
+    let p ← parseHex? p
+    let n ← parseHex? n
+    if t == "_" then runSignflag (kitFp ⟨p, n⟩) fl x impl
+    else match t.splitOn ":" with
+      | ["2", beta] => do
+        let beta ← parseHex? beta
+        runSignflag (kitFp2 ⟨p, n⟩ beta) fl x impl
+      | _ => none
+  | _ => none
+
+/-- `from_u8`, `u8_bitmask`, `is_infinity`, `is_positive` / `is_negative`, `from_u8_remove_flags` on one byte -/
+def runFlagu8 (fl : String) (v : Nat) (impl : String) : Option (String × String) :=
+  if v ≥ 256 then none else
+  let b7 := v / 128 % 2
+  let b6 := v / 64 % 2
+  if fl == "S" then
+    let m := match fromU8RemoveFlags SWFlags v with
+      | none => "none " ++ hex v
+      | some (f, v') =>
+        flagStr f ++ " " ++ boolStr f.isInfinity ++ " " ++
+          (match f.isPositive with | none => "-" | some true => "1" | some false => "0") ++ " " ++ hex v'
+    -- spec: bit 7 = negative sign, bit 6 = infinity, both = no flag (the byte is left alone); low 6 bits ignored
+    let want :=
+      if b7 == 1 && b6 == 1 then "none " ++ hex v
+      else hex (v - v % 64) ++ " " ++ hex b6 ++ " " ++ (if b6 == 1 then "-" else if b7 == 1 then "0" else "1") ++ " " ++ hex (v % 64)
+    some (m, wantStr impl want)
+  else if fl == "T" then
+    let m := match fromU8RemoveFlags TEFlags v with
+      | none => "none " ++ hex v
+      | some (f, v') => flagStr f ++ " " ++ boolStr f.isNegative ++ " " ++ hex v'
+    let want := hex (v - v % 128) ++ " " ++ hex b7 ++ " " ++ hex (v % 128)
+    some (m, wantStr impl want)
+  else none
+
+/-- `Default`, `SWFlags::infinity()`, `BIT_SIZE`.  Spec: "The default flags (empty) should not change the
+    binary representation" (doc comment of both enums): the default mask is `0`; infinity is bit 6 -/
+def runFlagconst (fl : String) (impl : String) : Option (String × String) :=
+  if fl == "S" then
+    some (flagStr SWFlags.dflt ++ " " ++ flagStr SWFlags.infinityFlag ++ " " ++ hex (bitSize SWFlags),
+      wantStr impl "0 40 2")
+  else if fl == "T" then
+    some (flagStr TEFlags.dflt ++ " " ++ hex (bitSize TEFlags), wantStr impl "0 1")
+  else none
+
 /-! ## dispatch -/
 
 def run (op : String) (args : List String) (impl : String) : Option (String × String) := do
@@ -732,6 +972,12 @@ def run (op : String) (args : List String) (impl : String) : Option (String × S
   | "mpde", _ => runPointLine true args impl
   | "pchk", _ => runChkLine args impl
   | "pbchk", _ => runChkLine args impl
+  | "toflags", _ => runCurveOpLine op args impl
+  | "prb", _ => runCurveOpLine op args impl
+  | "prbrt", _ => runCurveOpLine op args impl
+  | "signflag", _ => runSignflagLine args impl
+  | "flagu8", [fl, v] => runFlagu8 fl (← parseHex? v) impl
+  | "flagconst", [fl] => runFlagconst fl impl
   | _, _ => none
 
 end Ark.DrvC09
